@@ -148,6 +148,45 @@ def run_cases(ck, res, n_cases, n_interval):
         for k in range(len(exp)):
             if not enga.close(got[k], exp[k], scale * 100, rel=1e-8):
                 ck.fail(f'{name}/component{k}', f'{name}: component {k} is {got[k]!r}, the Cartesian definition gives {exp[k]!r}', inp, expected=exp[k], actual=got[k])
+    # ---- (b'') compositions: an operator applied to the RESULT of an operator (the result must carry its full autograd
+    #      graph, including the metric factors 1/r^2, 1/sin(theta), 1/rho): bi-Laplacian, gradient of the Laplacian, div grad
+    for ci in range(max(9, n_cases // 6)):
+        system = ['spherical', 'cylindrical'][ci % 2]
+        comp = ['bilaplacian', 'grad_laplacian', 'div_grad'][(ci // 2) % 3]
+        q = rand_point(r, system)
+        Q = [enga.col(torch, [v]) for v in q]
+        if system == 'spherical':
+            rr_, th, ph = Q
+            XYZ = [rr_ * torch.sin(th) * torch.cos(ph), rr_ * torch.sin(th) * torch.sin(ph), rr_ * torch.cos(th)]
+        else:
+            rho, ph, z = Q
+            XYZ = [rho * torch.cos(ph), rho * torch.sin(ph), z]
+        pr = Probe(3, r, nterms=r.randint(1, 2), kinds=('one', 'pow', 'sin', 'exp'))
+        u = pr.torch(*XYZ)
+        xyz = to_cart(system, q)
+        ee = lambda *idx: tuple(sum(1 for j in idx if j == k) for k in range(3))
+        inp = {'op': f'{system}_{comp}', 'cartesian_field': pr.describe(), 'point': q}
+        lap, grd, dv = getattr(O, f'{system}_laplacian'), getattr(O, f'{system}_grad'), getattr(O, f'{system}_div')
+        try:
+            if comp == 'bilaplacian':
+                got = [float(lap(lap(u, *Q), *Q).detach().reshape(-1)[0])]
+                exp = [sum(pr.jet(ee(i, i, j, j), xyz) for i in range(3) for j in range(3))]
+            elif comp == 'grad_laplacian':
+                got = [float(g.detach().reshape(-1)[0]) for g in grd(lap(u, *Q), *Q)]
+                cart = [sum(pr.jet(ee(i, i, k), xyz) for i in range(3)) for k in range(3)]
+                F = frame(system, q)
+                exp = [sum(F[k][i] * cart[i] for i in range(3)) for k in range(3)]
+            else:
+                got = [float(dv(*grd(u, *Q), *Q).detach().reshape(-1)[0])]
+                exp = [sum(pr.jet(ee(i, i), xyz) for i in range(3))]
+        except Exception as e:
+            ck.fail(f'{system}_{comp}/raises', f'{comp} raised {type(e).__name__}: {e}', inp)
+            continue
+        ck.add_case((system, comp, str(inp['cartesian_field']), str(q)))
+        scale = 1 + max(abs(v) for v in got + exp)
+        for k in range(len(exp)):
+            if not enga.close(got[k], exp[k], scale * 100, rel=1e-7):
+                ck.fail(f'{system}_{comp}/component{k}', f'{system} {comp}: component {k} is {got[k]!r}, the Cartesian definition gives {exp[k]!r}', inp, expected=exp[k], actual=got[k])
     # ---- (b') fields that ARE a coordinate column (the leaf tensor itself, no autograd history): closed forms
     LEAF = [
         ('spherical', 'grad', lambda Q: [Q[0]], lambda a, b, c: [1.0, 0.0, 0.0]),
